@@ -2,7 +2,8 @@
    Only the property theorems; each is closed by an exact lemma application (Lib/MapLibProofs.v).
    The model (Lib/MapLib.v) follows value/map.go, value/wrapper.go, value/binning.go (bin) and
    listMap/listMap.go after the repairs "fix: ReplaceMap.Get ...", "fix: Map.Merge ...",
-   "fix: bin.Size ...", "fix: funcMapType.Size ..."; the value type V, the element comparison veq
+   "fix: bin.Size ...", "fix: funcMapType.Size ..." and the C14 repair "fix: '=' on maps does not depend
+   on the order of the entries nor on which map is the receiver"; the value type V, the element comparison veq
    (None = error) and ToString vshow are arbitrary. *)
 From P2 Require Import Base.Prelude Lib.MapLib Lib.MapLibProofs.
 From Coq Require Import Permutation.
@@ -70,20 +71,36 @@ Theorem C13_equals_is_finite_map_equality : forall (V : Type) (veq : V -> V -> o
   (equals V veq a b = Some true <-> fm_equal V veq (iter V a) (iter V b)).
 Proof. exact equals_true_iff. Qed.
 
-(* ... hence independent of representation and key order on both sides ... *)
+(* ... it is an error exactly when the sizes agree and some entry of the left map meets an entry of
+   the right map it cannot be compared with (Map.Equals visits all entries; an error wins over a
+   difference) - so the outcome does not depend on any iteration order ... *)
+Theorem C13_equals_error_is_incomparable_entry : forall (V : Type) (veq : V -> V -> option bool) (a b : stor V),
+  coherent V a -> coherent V b ->
+  (equals V veq a b = None <-> fm_equal_err V veq (iter V a) (iter V b)).
+Proof. exact equals_err_iff. Qed.
+
+(* ... hence the whole outcome (true, false, error) is independent of representation and key order
+   on both sides ... *)
 Theorem C13_equality_representation_independent :
   forall (V : Type) (veq : V -> V -> option bool) (a a' b b' : stor V),
   coherent V a -> coherent V a' -> coherent V b -> coherent V b' ->
   fm_equiv V (iter V a) (iter V a') -> fm_equiv V (iter V b) (iter V b') ->
-  (equals V veq a b = Some true <-> equals V veq a' b' = Some true).
+  equals V veq a b = equals V veq a' b'.
 Proof. exact equality_representation_independent. Qed.
 
-(* ... symmetric when the element comparison is ... *)
+(* ... symmetric in its whole outcome, errors included, when the element comparison is symmetric
+   (it does not matter which map is the receiver) ... *)
 Theorem C13_equality_symmetric : forall (V : Type) (veq : V -> V -> option bool),
+  (forall x y, veq x y = veq y x) ->
+  forall a b : stor V, coherent V a -> coherent V b -> equals V veq a b = equals V veq b a.
+Proof. exact equality_symmetric. Qed.
+
+(* ... and its answer "true" is symmetric already when the element comparison's "true" is ... *)
+Theorem C13_equality_true_symmetric : forall (V : Type) (veq : V -> V -> option bool),
   (forall x y, veq x y = Some true -> veq y x = Some true) ->
   forall a b : stor V, coherent V a -> coherent V b ->
   equals V veq a b = Some true -> equals V veq b a = Some true.
-Proof. exact equality_symmetric. Qed.
+Proof. exact equality_true_symmetric. Qed.
 
 (* ... and, when the element comparison decides identity, true exactly for the same abstract map *)
 Theorem C13_equality_is_same_map : forall (V : Type) (veq : V -> V -> option bool),
@@ -142,7 +159,9 @@ Print Assumptions C13_func_storage_unrestricted_refuted.
 Print Assumptions C13_observers_agree.
 Print Assumptions C13_equals_is_finite_map_equality.
 Print Assumptions C13_equality_representation_independent.
+Print Assumptions C13_equals_error_is_incomparable_entry.
 Print Assumptions C13_equality_symmetric.
+Print Assumptions C13_equality_true_symmetric.
 Print Assumptions C13_equality_is_same_map.
 Print Assumptions C13_keys_stay_unique.
 Print Assumptions C13_real_order_irrelevant.
